@@ -614,10 +614,8 @@ impl Harness for DomainHarness {
         pathlog::enable(false);
         let pid = unsafe { libc::getpid() };
         let base = root_of(pid);
-        let mut g = match errs.lock() {
-            Ok(g) => g,
-            Err(p) => p.into_inner(),
-        };
+        #[allow(unused_mut)]
+        let mut g = take_after_run(&errs);
         // leftovers: files under the roots (directories are documented to persist) and shm objects
         let mut left = Vec::new();
         fn walk(dir: &std::path::Path, out: &mut Vec<String>) {
@@ -785,10 +783,8 @@ impl Harness for SemanticEditHarness {
                 _ => edit_history::<FilePath, { FilePath::max_len() }>("FilePath", &plan2, &mut e),
             }
         });
-        let g = match errs.lock() {
-            Ok(g) => g,
-            Err(p) => p.into_inner(),
-        };
+        #[allow(unused_mut)]
+        let mut g = take_after_run(&errs);
         let mut violation = g.errs.first().map(|(c, m)| Violation { class: c.clone(), msg: m.clone() });
         if violation.is_none() {
             if let Outcome::Panic { thread, msg } = &report.outcome {
@@ -950,10 +946,8 @@ impl Harness for ConceptHarness {
             }
         });
         pathlog::enable(false);
-        let g = match errs.lock() {
-            Ok(g) => g,
-            Err(p) => p.into_inner(),
-        };
+        #[allow(unused_mut)]
+        let mut g = take_after_run(&errs);
         let mut violation = g.errs.first().map(|(c, m)| Violation { class: c.clone(), msg: m.clone() });
         if violation.is_none() {
             if let Outcome::Panic { thread, msg } = &report.outcome {
